@@ -21,6 +21,7 @@ checks = {
  "C10": ("model_checking", T, "all sequences (to the bound) of create/update/remove/opt-in messages with zero, past, future and equal spawn times, chain-id changes (same / other revision), allow-inactive consumers, and 5 s / unbonding-period block steps; phase edges, INITIALIZED <=> spawn time <=> scheduled exactly once, launch timing and success predicate, recorded genesis and client are judged on every transition; three directed fixtures with 205 / 150+100 / 199+2+3 consumers due at once exercise the 200-per-block limit", "§5 C10"),
  "C16": ("model_checking", T, "fees in an allowed and a disallowed denom on a real consumer app, four (fraction, period) settings, closed transfer channel, reward transfer through the real ibc-go transfer keeper and the provider's transfer middleware, late joiner, opt-out, commission changes, allow-list / governance denom registration, payout in BeginBlock; per consumer block the split / send rules, per delivery pool and credit, per provider block the exact-decimal credit accounting, per-validator shares and commissions, eligibility, distribution-account-vs-books, and escrow == minted + in flight in every state", "§5 C16"),
  "C17": ("model_checking", T, "provider OnChanOpenTry over the full grid 7 hop choices x ordering x port x counterparty port x version, OnChanOpenConfirm repeated and for second channels on one client, OnChanOpenInit/Ack on the provider; consumer OnChanOpenInit over 3 hop choices x ordering x counterparty port x version; launches on a pre-existing connection named by two consumers; acceptance is compared with the statement's predicate and the consumer-client-channel relations must be one to one in every reached state; the well-formed handshake runs end to end in the C01 late-open units", "§5 C17"),
+ "C18": ("model_checking", T, "schedules = iteration orders of map ranges: every `range` over a map in x/ccv (found with go/types on the current tree, rewritten through `go build -overlay`) is driven by the model checker; every transition of eleven scenario units (vscrelay, slash, eligibility, rewards, evidence, lifecycle, stop, keys) is executed on two independent replicas and once more for every alternative order (all k! for k <= 4 keys) of every map-range occurrence in it, and must land in the identical state; plus a static scan for wall-clock, randomness, goroutines, select, unsafe and %p in the consensus path", "§5 C18"),
  "C19": ("fault_enumeration", T, "part (i): the halt monitor (no BeginBlock/EndBlock error or panic, validator updates acceptable to CometBFT) over the lifecycle, keys, eligibility and provvalset searches; part (ii) (fault injection at external calls) is being added", "§5 C19"),
  "C20": ("model_checking", T, "all sequences (to the bound) of full / partial / cancelling parameter updates on a launched and a registered consumer, stop+deletion, downtime handling and block steps 5 s, U-5 s, U; in-force / pending / schedule records are compared with the timeline rules on every transition and the fraction and jail time actually applied are compared with the parameters in force; a directed fixture with 203 changes due at once exercises the 200-per-block limit", "§5 C20"),
  "C13": ("model_checking", T, "two worlds per node (with / without the operations aimed at consumer X in {1, 10, 0}); eleven consumers so that ids 1 and 10 coexist, both rich (keys incl. replaced ones, opt-ins, three lists, commission, pending infraction change, queued VSC packets, slash acks, reward credit); after every event of every sequence up to the bound every provider-store entry not owned by X must be byte-identical in both worlds", "§5 C13"),
@@ -54,7 +55,7 @@ for pid in sorted(checks):
       "property_id": pid, "quick_cmd": f"./check {pid} quick", "thorough_cmd": f"./check {pid} thorough",
       "evidence_file": f"/verif/evidence/{pid}.json", "replay_cmd_template": "./check --replay {path}", "engine": "mc",
       "level_claimed": {"category": lvl, "text": text, "design_ref": "DESIGN.md " + ref},
-      "level_note": XNOTE if pid in XPROPS else NOTE, "technique": tech})
+      "level_note": (XNOTE if pid in XPROPS else NOTE) + ("; iteration order inside dependencies (SDK, ibc-go, CometBFT) is not owned; event logs are not compared" if pid == "C18" else ""), "technique": tech})
 for pid in ids:
     if pid not in checks:
         m["not_applicable"].append({"property_id": pid, "reason": pending.get(pid, "check not built yet (work in progress); the technique applies, see DESIGN.md §5")})
